@@ -34,7 +34,7 @@ Print Assumptions C10_handler.
 Theorem C10_handler_propose : forall json_decode st sid body e,
   post_handler json_decode st sid body = PPropose e <->
   exists d c, json_decode (stake body_limit body) = Some (d, c) /\ last_post st sid <> c /\
-              st_leader st = true /\ e = mkEntry EIrc 0 sid c (cut_newline d) 0.
+              st_leader st = true /\ e = mkEntry EIrc 0 sid c (cut_line d) 0.
 Proof. exact handler_propose. Qed.
 Print Assumptions C10_handler_propose.
 
